@@ -268,7 +268,12 @@ def gen_structural(cls, src, path, nsrc, nfns, npath):
     dmap = dict(zip(names[len(names) - len(defaults):], defaults))
     if 'mask_corners' not in dmap or not isinstance(dmap['mask_corners'], ast.Constant) or not isinstance(dmap['mask_corners'].value, bool):
         raise TranslateError('__new__: mask_corners default')
-    new_defaults = {'mask_corners': 'true' if dmap['mask_corners'].value else 'false'}
+    if 'copy' not in dmap or not isinstance(dmap['copy'], ast.Constant) or not isinstance(dmap['copy'].value, bool):
+        raise TranslateError('__new__: copy default')
+    new_defaults = {'mask_corners': 'true' if dmap['mask_corners'].value else 'false',
+                    'copy': 'true' if dmap['copy'].value else 'false'}
+    if 'numpy.ma.masked_array(data,mask=mask,dtype=dtype,copy=copy,' not in re.sub(r'\s+', '', ast.unparse(new)):
+        raise TranslateError('__new__: `copy` is not forwarded to numpy.ma.masked_array')
     # positional order used by the operator templates: (subtype, data, mask, mask_corners, data_folded, check_folding, …)
     if names[:4] != ['subtype', 'data', 'mask', 'mask_corners']:
         raise TranslateError('__new__: positional order %s' % names[:4])
@@ -307,7 +312,7 @@ def gen_structural(cls, src, path, nsrc, nfns, npath):
 
 PY3_NDARRAY_MISSING = {'__div__', '__rdiv__', '__idiv__'}
 
-def gen_operators(cls, src, path):
+def gen_operators(cls, src, path, new_defaults):
     """the two `for method in [...]: exec(template % {'method': method})` loops, and _check_other_folding"""
     loops = []
     for n in cls.body:
@@ -387,6 +392,12 @@ def gen_operators(cls, src, path):
     out.append('def binopMaskCorners : Bool := %s' % kw['mask_corners'].lower())
     out.append('def binopFolded (selfFolded otherFolded : Bool) : Bool := %s'
                % {'self.folded': 'selfFolded', 'other.folded': 'otherFolded', 'True': 'true', 'False': 'false'}[fold_src])
+    cp = kw.get('copy')
+    if cp not in (None, 'True', 'False'): raise TranslateError('binary template: copy=%s' % cp)
+    if set(kw) - {'mask_corners', 'data_folded', 'check_folding', 'pop_ids', 'extrap_x', 'copy'}:
+        raise TranslateError('binary template: constructor keywords %s' % sorted(kw))
+    out.append('/-- binary template: the constructor copies data and mask (`copy` keyword as passed, or the default of Spectrum.__new__) -/')
+    out.append('def binopCopies : Bool := %s' % (new_defaults['copy'] if cp is None else cp.lower()))
     if norm(b[-1]) != 'returnoutfs': raise TranslateError('binary template: return')
     # ---- in-place template
     fn = ast.parse(inp_t % {'method': '__OP__'}).body[0]
@@ -524,7 +535,7 @@ def generate():
     out.append(structural)
     out.append(gen_method(method(cls, 'fold'), src, spath, new_defaults))
     out.append(gen_method(method(cls, 'unfold'), src, spath, new_defaults))
-    out.append(gen_operators(cls, src, spath))
+    out.append(gen_operators(cls, src, spath, new_defaults))
     out.append(gen_misid(nsrc, nfns, npath))
     out.append(gen_autofold(isrc, itree, ipath))
     out.append('end Gen.Fold\nend DadiVerif\n')
